@@ -81,6 +81,18 @@ def search(pid, violations, repo, seed):
         return None
     finally:
         shutil.rmtree(d, ignore_errors=True)
+        _clean_temp()
+
+
+def _clean_temp():
+    # the writer tests of replay.rs create small files in the system temp directory
+    import glob
+    for f in glob.glob(os.path.join(tempfile.gettempdir(), 'verif-replay-*_*')):
+        if os.path.isfile(f):
+            try:
+                os.remove(f)
+            except OSError:
+                pass
 
 
 def main():
